@@ -14,11 +14,13 @@ Fixpoint index_of (x : string) (l : list string) : nat :=
 Definition nth_s (n : nat) (l : list string) : string := nth n l ""%string.
 
 Definition stmts_ok : bool :=
-  (* Pop: token received first, outside the mutex; the rest under the mutex; re-signal when alerts remain *)
-  String.eqb (nth_s 0 Pop_stmts) "select[recv:termc|recv:q.morec]"
-  && String.eqb (nth_s 1 Pop_stmts) "call:q.mtx.Lock()"
-  && String.eqb (nth_s 2 Pop_stmts) "defer:q.mtx.Unlock()"
-  && existsb (String.eqb "if:len(q.queue) > 0{select[send:q.morec|default]}") Pop_stmts
+  (* Pop, exactly: token received first, outside the mutex; then the critical
+     section with no statement (in particular no return) between taking the mutex
+     and the re-signal when alerts remain *)
+  list_eqb String.eqb Pop_stmts
+    ["select[recv:termc|recv:q.morec]"; "call:q.mtx.Lock()"; "defer:q.mtx.Unlock()";
+     "assign:as"; "assign:n"; "assign:q.queue"; "call:q.popped.Add(float64(n))";
+     "if:len(q.queue) > 0{select[send:q.morec|default]}"; "return"]%string
   (* Push: everything after the early return runs under the mutex and the signal is the last statement *)
   && String.eqb (nth_s 0 Push_stmts) "if:len(alerts) == 0"
   && String.eqb (nth_s 1 Push_stmts) "call:q.mtx.Lock()"
@@ -123,7 +125,8 @@ Section Inv.
   Lemma step_inv s k p l s' :
     Inv s k p -> step cap batch keep s l = Some s' -> Inv s' (k ++ kept1 l) (p ++ popped1 l).
   Proof.
-    intros HI Hs. destruct l as [a| |out]; simpl in Hs; simpl kept1; simpl popped1.
+    intros HI Hs. destruct l as [a| |out|]; simpl in Hs; simpl kept1; simpl popped1;
+      [| | |inversion Hs; subst; rewrite !app_nil_r; exact HI].
     - inversion Hs; subst. rewrite app_nil_r. apply push_inv. exact HI.
     - unfold take in Hs. destruct (tok s); [|discriminate]. inversion Hs; subst.
       rewrite !app_nil_r. destruct HI as [I1 [I2 I3]]. repeat split; simpl; auto.
@@ -173,7 +176,7 @@ Section Inv.
     induction tr as [|l tr IH]; intros s s' Hr; [constructor|]. simpl in Hr.
     destruct (step cap batch keep s l) as [s1|] eqn:Es; [|discriminate].
     constructor; [|eapply IH; eauto].
-    destruct l as [a| |out]; auto. simpl in Es. unfold crit in Es.
+    destruct l as [a| |out|]; auto. simpl in Es. unfold crit in Es.
     destruct (mid s); [discriminate|].
     destruct (zlist_eqb (firstn (Z.to_nat batch) (q s)) out) eqn:E; [|discriminate].
     apply zlist_eqb_eq in E. subst out. unfold len.
